@@ -30,11 +30,17 @@ import (
 //       Extra[key] of that node is set to the Go value of the descriptor (goval.go: typed maps and slices, json.Number, pointers,
 //       declared structs "S:…", json.RawMessage "rawjson", *Schema "schema") instead of a decoded JSON value; the node table's
 //       Extra entry of the same key carries the JSON value that Go value marshals to.
+//   "govals": [[node, field, index, value-descriptor], …]
+//       a value LISTED by the schema — Enum[index] (field "Enum") or *Const (field "Const"; index ignored) of that node — is set to
+//       the Go value of the descriptor (a [4]byte, a []byte, a typed map, a pointer, …: `Const: Ptr(any([2]byte{0xCA, 0xFE}))`)
+//       instead of a decoded JSON value; the node table's Enum / Const entry carries the JSON value that Go value denotes (the
+//       entry must exist). Absent (the default): every listed value is the decoded JSON value of the node table, as before.
 type schemaDesc struct {
 	Nodes   []map[string]json.RawMessage `json:"nodes"`
 	Root    *int                         `json:"root"`
 	Alias   []aliasGroup                 `json:"alias"`
 	GoExtra [][3]json.RawMessage         `json:"goextra"`
+	GoVals  [][4]json.RawMessage         `json:"govals"`
 }
 
 type aliasGroup struct {
@@ -216,6 +222,31 @@ func buildSchemas(raw json.RawMessage) (*jsonschema.Schema, []*jsonschema.Schema
 			nodes[i].Extra = map[string]any{}
 		}
 		nodes[i].Extra[k] = v
+	}
+	for _, gv := range d.GoVals {
+		var i, idx int
+		var field string
+		if err := json.Unmarshal(gv[0], &i); err != nil || i < 0 || i >= len(nodes) {
+			return nil, nil, fmt.Errorf("govals: bad node index")
+		}
+		if err := json.Unmarshal(gv[1], &field); err != nil {
+			return nil, nil, err
+		}
+		if err := json.Unmarshal(gv[2], &idx); err != nil {
+			return nil, nil, err
+		}
+		v, err := buildAny(gv[3])
+		if err != nil {
+			return nil, nil, fmt.Errorf("govals: %v", err)
+		}
+		switch {
+		case field == "Const" && nodes[i].Const != nil:
+			*nodes[i].Const = v
+		case field == "Enum" && idx >= 0 && idx < len(nodes[i].Enum):
+			nodes[i].Enum[idx] = v
+		default:
+			return nil, nil, fmt.Errorf("govals: node %d lists no such value (%s[%d])", i, field, idx)
+		}
 	}
 	if err := applyAliases(nodes, d.Alias); err != nil {
 		return nil, nil, err
